@@ -1877,8 +1877,10 @@ func (this *decodingTask) decode(res *decodingTaskResult) {
 			}
 		}
 
-		if res.err != nil || (res.decoded == 0 && res.skipped == false) {
+		if res.err != nil {
 			simhook.Point("dec.release", 1)
+		} else if res.decoded == 0 && res.skipped == false {
+			simhook.Point("dec.release", 2)
 		} else {
 			simhook.Point("dec.release", 0)
 		}
